@@ -300,6 +300,30 @@ def outcome(ctx, report, rule, facts, config):
             ok = False
         report.ob(rule, name, ok, "get(&id).map(|cell| guard(cell.%s())): None only when absent, a refused borrow panics inside %s" % (borrow, borrow) if ok else
                   "%s does not map the looked-up cell through the panicking `%s`" % (name, borrow), site=b.loc(), config=config)
+    # every use of the non-panicking borrow API in the crate: a refused borrow must end in a panic, never in a value
+    n_try = 0
+    for b in sorted(facts.bodies.values(), key=lambda b: b.key):
+        tries = [bb for bb, t in b.normal_calls() if Callee(t["func"]).name in ("try_borrow", "try_borrow_mut") and CELL in Callee(t["func"]).path]
+        if not tries:
+            continue
+        n_try += len(tries)
+        bt = prog.bt(b)
+        problems = []
+        for bb, t in b.normal_calls():
+            c = Callee(t["func"])
+            for a in bt.call_args(bb):
+                if isinstance(a, tuple) and a[:1] == ("call",) and a[1] in tries and c.name not in ("unwrap", "expect"):
+                    problems.append("the result of %s is handed to `%s`" % (Callee(b.blocks[a[1]]["term"]["func"]).name, c.name))
+        try:
+            for p in enumerate_paths(b, facts):
+                for (ct, cv, cn, cb) in p.conds:
+                    if ct[0] == "discr" and ct[1][0] == "call" and ct[1][1] in tries and cn == "Err" and p.end == "return":
+                        problems.append("a refused borrow (Err arm) reaches a normal return")
+        except Exception as e:
+            problems.append("cannot enumerate the paths around try_borrow (%s)" % type(e).__name__)
+        report.ob(rule, "refused-borrow-panics/%s" % b.qname, not problems,
+                  "; ".join(sorted(set(problems))) if problems else "a refused try_borrow ends in a panic on every path", site=b.loc(tries[0]), config=config)
+    report.floor(rule, "try_borrow call sites", n_try, 2, config=config)
     for name, inner in (("fetch", "try_fetch"), ("fetch_mut", "try_fetch_mut")):
         b = facts.one(A.WORLD + "::" + name)
         report.touched(b, config)
@@ -575,6 +599,40 @@ def insert_rules(ctx, report, rule, facts, config):
     report.ob(rule, "ResourceId/fields", fl == ["type_id", "dynamic_id"], "fields %s" % fl, config=config)
 
 
+def _typed_lookup(prog, facts, body, st):
+    """A guard built outside the audited functions is still fine if it is visibly a typed lookup:
+    Guard<X> whose cell comes from resources.get(&ResourceId::new::<X>()) in the same function
+    (or an id asserted for X there)."""
+    rv = st["rv"]
+    targs = [a["s"] for a in rv.get("args", []) if a["k"] == "ty"]
+    if len(targs) != 1:
+        return None
+    x = targs[0]
+    fn = body
+    while fn.is_closure and fn.parent_key in facts.bodies:
+        fn = facts.bodies[fn.parent_key]
+    bt = prog.bt(fn)
+    keys = []
+    for bb, t in fn.normal_calls():
+        c = Callee(t["func"])
+        if c.name == "get" and "HashMap" in c.path:
+            a = bt.call_args(bb)
+            f_, i_, base = S.table_access(fn, a[0])
+            if S.crate_fields(f_)[-1:] == [(A.WORLD, "resources")]:
+                keys.append(a[1])
+    if len(keys) != 1:
+        return None
+    k = keys[0]
+    if k[0] == "call" and bt.callee(k[1]).name == "new" and bt.callee(k[1]).self_head == A.RESID and _type_args(bt.callee(k[1])) == [x]:
+        return "typed lookup: resources.get(&ResourceId::new::<%s>()) in %s" % (x, fn.qname)
+    if k[0] == "param":
+        ast = [bb for bb, t in fn.normal_calls() if Callee(t["func"]).name == "assert_same_type_id" and _type_args(Callee(t["func"])) == [x]
+               and bt.call_args(bb)[0] == k]
+        if ast:
+            return "lookup under an id asserted for %s in %s" % (x, fn.qname)
+    return None
+
+
 def guard_rules(ctx, report, rule, facts, config):
     """C09.GUARD / DOWNCAST / ONCE."""
     prog = ctx.program(facts)
@@ -593,6 +651,8 @@ def guard_rules(ctx, report, rule, facts, config):
                     adt = st["rv"]["adt"]
                     n[adt] += 1
                     why = allowed[adt].get(b.qname.split("::{closure", 1)[0])
+                    if why is None:
+                        why = _typed_lookup(prog, facts, b, st)
                     report.ob(rule, "guard-built/%s/%s" % (adt.rsplit("::", 1)[1], b.qname), why is not None,
                               why or "%s is constructed in %s, outside the audited typed lookups" % (adt.rsplit("::", 1)[1], b.qname), site=b.loc(bi), config=config)
     report.floor(rule, "Fetch constructions", n[A.FETCH], 3, config=config)
